@@ -381,8 +381,12 @@ func coqCases(c Case, r Result, w *CaseWriter) []string {
 		if r.Kind != "ok" {
 			r.B = []float64{}
 		}
-		out = append(out, fmt.Sprintf("KBS %d %s %s %s %s", n, fm(c.A), B(c.HasB), FList(c.B), FList(r.B)))
-		if r.Kind == "ok" && c.HasB && c.Tag != "garbage" && finiteM([][]float64{r.B}) {
+		am := c.A
+		if c.InSituA {
+			am = identity(n) // Run works on the caller's InSitu.A buffer, never on A (model: backsub_run)
+		}
+		out = append(out, fmt.Sprintf("KBS %d %s %s %s %s", n, fm(am), B(c.HasB), FList(c.B), FList(r.B)))
+		if r.Kind == "ok" && c.HasB && !c.InSituA && c.Tag != "garbage" && finiteM([][]float64{r.B}) {
 			na := normInf(c.A, allTrue(n))
 			mx := 1.0
 			for _, v := range r.B {
